@@ -8,13 +8,15 @@
         flown, at or after its promised start; planning happens no later than the start of the day of
         any promised trip not yet flown and the new trip starts after the last one flown; the trip
         rules do not close a trip by themselves, i.e. trips are closed by keeping their promise;
-        predictors answer day numbers in range) then EVERY check-in is accepted - no check-in for a
+        every accepted proposal has positive clearance dates - which holds whenever the predictor
+        answers day numbers in range) then EVERY check-in is accepted - no check-in for a
         promised trip or its return is refused, whatever the debt.  The invariant behind it: between
         trips the kept promise covers the traveller - its entry is in the book with a clearance date
         that is the stored one or has been brought forward to the day a not-yet-flown trip starts, or
         it has left the book only after its clearance date passed (the repaired room rule).
-        [C20_checked_history_every_checkin_accepted] is the runnable form: a boolean check of the
-        discipline, evaluated by the kernel on a concrete history, implies acceptance;
+        [C20_checked_history_every_checkin_accepted] is the runnable form: the discipline is decidable
+        ([conformsb], no side condition left), and the boolean check evaluated by the kernel on a
+        concrete history implies acceptance;
         [C20_engine_history_every_checkin_accepted] lifts it to the engine: any number of travellers,
         SubmitFlights / Propose+Make / UpdateTripsAndBackfill (any thread setting) / SetParams in any
         interleaving from an empty table, each traveller's part of the history following the discipline;
@@ -126,15 +128,14 @@ Print Assumptions C20_conforming_history_every_checkin_accepted.
 (** each step keeps the invariant and accepts the check-in *)
 Theorem C20_step_keeps_invariant : forall (N : NumOps) mx, 1 <= mx ->
   forall clk (t : traveller N) e,
-  J mx clk t -> conforms clk t e -> accepted t e /\ J mx (ev_time e) (apply_ev mx t e).
+  J mx clk t -> conforms mx clk t e -> accepted t e /\ J mx (ev_time e) (apply_ev mx t e).
 Proof. exact @step_J. Qed.
 Print Assumptions C20_step_keeps_invariant.
 
 (** runnable form: the discipline decided by computation *)
 Theorem C20_checked_history_every_checkin_accepted : forall (N : NumOps) mx, 1 <= mx ->
   forall (evs : list (@ev N)) clk now,
-  Forall ev_pred_ok evs -> conformingb mx clk (new_traveller now) evs = true ->
-  all_acceptedb mx (new_traveller now) evs = true.
+  conformingb mx clk (new_traveller now) evs = true -> all_acceptedb mx (new_traveller now) evs = true.
 Proof. exact @checked_history_all_accepted. Qed.
 Print Assumptions C20_checked_history_every_checkin_accepted.
 
@@ -159,9 +160,9 @@ Print Assumptions C20_engine_step_keeps_invariant.
     least FlightInterval days after the outbound landed, the trip within TripLength whole days at the
     update, and room for three flights *)
 Theorem C20_bot_trip_shapes_follow_the_update_discipline :
-  forall (N : NumOps) clk (t : traveller N) (p : params N) share now,
+  forall (N : NumOps) mx clk (t : traveller N) (p : params N) share now,
   clk <= now -> 0 <= now -> now mod SecondsInDay = 0 -> length (entries (t_hist t)) = MaxFlights ->
-  bot_shape (th_params p) now (t_hist t) -> conforms clk t (EUpdate p share now).
+  bot_shape (th_params p) now (t_hist t) -> conforms mx clk t (EUpdate p share now).
 Proof. exact @bot_shape_update_conforms. Qed.
 Print Assumptions C20_bot_trip_shapes_follow_the_update_discipline.
 
@@ -207,14 +208,6 @@ Definition ex_history : list (@ev NumZ) :=
     @EUpdate NumZ ex_params 100 (ex_day 15);
     @ECheckin NumZ (ex_flight (ex_day 15 + 3600) (ex_day 15 + 7200) 1 2 1000) (ex_day 15 + 3600) (@empty_pc NumZ) ex_params true ].
 
-Lemma ex_pred_ok : pred_ok ex_pred.
-Proof.
-  intros d s c. unfold ex_pred. cbn [pr_predict].
-  destruct (Z.leb_spec 1 s); cbn [andb]; [|discriminate]. destruct (Z.ltb_spec s 1000000); [|discriminate].
-  intros E. injection E as <-. unfold day_ok, two64, SecondsInDay. split; lia.
-Qed.
-Print Assumptions ex_pred_ok.
-
 Example C20_whole_history_hypotheses_hold_somewhere :
   let before_last := fold_left (@apply_ev NumZ 3) (firstn 8 ex_history) (@new_traveller NumZ (ex_day 5)) in
   conforming 3 0 (@new_traveller NumZ (ex_day 5)) ex_history /\
@@ -223,14 +216,20 @@ Example C20_whole_history_hypotheses_hold_somewhere :
   p_clear (getp (t_book before_last) 1) = ex_day 15 /\  (* brought forward in the book *)
   all_accepted 3 (@new_traveller NumZ (ex_day 5)) ex_history.
 Proof.
-  assert (Hp : Forall ev_pred_ok ex_history).
-  { unfold ex_history. repeat (apply Forall_cons; [first [exact ex_pred_ok | exact I]|]). apply Forall_nil. }
   assert (Hc : conforming 3 0 (@new_traveller NumZ (ex_day 5)) ex_history).
-  { apply conformingb_sound; [exact Hp|vm_compute; reflexivity]. }
+  { apply conformingb_sound. vm_compute. reflexivity. }
   cbn zeta. split; [exact Hc|]. split; [vm_compute; reflexivity|]. split; [vm_compute; reflexivity|].
   split; [vm_compute; reflexivity|]. split; [vm_compute; reflexivity|].
   apply (C20_bot_history_every_checkin_accepted NumZ 3 ltac:(lia) ex_history 0 (ex_day 5) Hc).
 Qed.
+
+(** the clause of the discipline about the predictor follows from "its answers are day numbers in range" *)
+Theorem C20_sane_predictor_keeps_clearances_positive :
+  forall (N : NumOps) mx (t : traveller N) ts te d tr now (pr : predictor N),
+  Inv mx (t_book t) -> Pos (t_book t) -> SecondsInDay <= now -> te < tmax -> pred_ok pr ->
+  forall pp, propose (t_book t) ts te d tr now pr mx = inl pp -> Pos (pp_entries pp).
+Proof. exact @sane_predictor_keeps_clearances_positive. Qed.
+Print Assumptions C20_sane_predictor_keeps_clearances_positive.
 
 (** non-vacuity: float64 and exact arithmetic satisfy the two facts about zero, and an empty book is consistent *)
 Example C20_hypotheses_hold_somewhere :
